@@ -45,6 +45,10 @@ type Scen struct {
 	Crit      string    `json:"crit"`     // none processed unprocessed
 	CritInt   bool      `json:"critInt"`  // COSE integer-keyed critical attribute
 	CapOrder  int       `json:"capOrder"` // order in which the plugin declares its capabilities
+	// Filler: NON-critical extended attributes placed before / after the others; they never
+	// decide anything, whether or not the plugin lists them as processed (finding F17)
+	Filler          string `json:"filler,omitempty"` // "" before after both
+	FillerProcessed bool   `json:"fillerProcessed,omitempty"`
 	// Warm: an earlier verification on the SAME verifier with another envelope (other expiry /
 	// certificate times / attributes); it is not judged and must not influence the judged one
 	Warm *Warm `json:"warm,omitempty"`
@@ -60,13 +64,14 @@ type Warm struct {
 }
 
 func (s *Scen) fp() uint64 {
-	return stats.Fingerprint(s.Level.Key(), s.Level.String(), s.Scheme, s.Format, s.Trust, s.Identity, s.Expiry, s.CertTime, s.Rev, s.Plugin, s.MinVer, s.TIVerdict, s.RVVerdict, s.PluginErr, s.Crit, s.CritInt, s.CapOrder, fmt.Sprintf("%+v", s.Warm))
+	return stats.Fingerprint(s.Level.Key(), s.Level.String(), s.Scheme, s.Format, s.Trust, s.Identity, s.Expiry, s.CertTime, s.Rev, s.Plugin, s.MinVer, s.TIVerdict, s.RVVerdict, s.PluginErr, s.Crit, s.CritInt, s.CapOrder, s.Filler, s.FillerProcessed, fmt.Sprintf("%+v", s.Warm))
 }
 
 const pluginName = "verif-plugin"
 const pluginVersion = "1.5.0"
 const critKey = "com.example.verif.critical"
 const critIntKey = int64(-70001)
+const fillerKey = "com.example.verif.optional"
 
 // ---- chains (minted once per process; margins of 12 h around the wall clock) ----
 
@@ -225,6 +230,9 @@ func realise(s *Scen) (*run, error) {
 	case "past":
 		spec.Expiry = now.Add(-30 * time.Minute)
 	}
+	if s.Filler == "before" || s.Filler == "both" {
+		spec.Ext = append(spec.Ext, envb.Attr{Key: fillerKey + ".a", Critical: false, Value: "f"})
+	}
 	if s.Plugin != "none" {
 		spec.Ext = append(spec.Ext, envb.Attr{Key: envb.AttrPlugin, Critical: true, Value: pluginName})
 		if s.MinVer != "" {
@@ -237,6 +245,9 @@ func realise(s *Scen) (*run, error) {
 		} else {
 			spec.Ext = append(spec.Ext, envb.Attr{Key: critKey, Critical: true, Value: "v"})
 		}
+	}
+	if s.Filler == "after" || s.Filler == "both" {
+		spec.Ext = append(spec.Ext, envb.Attr{Key: fillerKey + ".z", Critical: false, Value: "f"})
 	}
 	env := envb.Build(spec)
 
@@ -274,6 +285,9 @@ func realise(s *Scen) (*run, error) {
 		} else {
 			plug.Processed = []any{critKey}
 		}
+	}
+	if s.Filler != "" && s.FillerProcessed {
+		plug.Processed = append(plug.Processed, fillerKey+".a", fillerKey+".z")
 	}
 	mgr := &mocks.Manager{Plugins: map[string]notationPlugin{pluginName: plug}}
 	opts := kit.Options()
@@ -493,6 +507,12 @@ func classes(s *Scen, v verdict) []string {
 	if s.Warm != nil {
 		cl = append(cl, "reused-verifier")
 	}
+	if s.Filler != "" {
+		cl = append(cl, "noncritical-attr-"+s.Filler)
+		if !s.FillerProcessed && s.Plugin != "none" {
+			cl = append(cl, "noncritical-attr-not-reported-by-plugin")
+		}
+	}
 	return cl
 }
 
@@ -567,6 +587,8 @@ func drawScen(rt *rapid.T) *Scen {
 	if s.Crit != "none" && s.Format == envb.MTCOSE {
 		s.CritInt = rapid.IntRange(0, 2).Draw(rt, "critIntKey") == 0
 	}
+	s.Filler = rp.Pick(rt, "filler", "", "", "", "before", "after", "both")
+	s.FillerProcessed = s.Filler != "" && rapid.Bool().Draw(rt, "fillerProcessed")
 	if rapid.IntRange(0, 3).Draw(rt, "warm") == 0 {
 		s.Warm = &Warm{Expiry: rp.Pick(rt, "wExpiry", "none", "future", "past"), CertTime: rp.Pick(rt, "wCertTime", "valid", "leafexpired", "cafuture"),
 			Plugin: rapid.Bool().Draw(rt, "wPlugin"), Crit: rapid.IntRange(0, 3).Draw(rt, "wCrit") == 0, Format: rp.Pick(rt, "wFormat", envb.MTJWS, envb.MTCOSE)}
